@@ -9,7 +9,7 @@ from sym import *
 from world import *
 
 class Path:
-    __slots__ = ('pc', 'cls', 'ok', 'payload', 'events', 'fs', 'taint', 'state')
+    __slots__ = ('pc', 'cls', 'ok', 'payload', 'events', 'fs', 'taint', 'state', 'top')
     def __init__(s, st):
         s.pc = list(st.pc); s.events = list(st.events); s.fs = dict(st.env['fs']); s.taint = list(st.taint); s.state = st
         s.cls, s.payload = classify(st.result)
